@@ -20,7 +20,7 @@ CLAIMED: dict[str, tuple[str, str, str, str]] = {
         "back to (distribution name, version, tag) for every name and every version text without '-'; relative forward-slash paths without "
         "'..'; prepared dist-info files are the wheel's dist-info members. Every run re-reads each real wheel and recomputes all hashes, "
         "modes, paths, name agreement via packaging.parse_wheel_filename, returned name vs directory, prepared vs built dist-info bytes.",
-        TB + "Partial: zip/deflate, sha256 (uninterpreted), csv dialect of CPython 3.12 and the file system are trusted; that the builder performs the modelled call sequence is sampled (logged in-process), not proved; each-member-once is proved for the builder's own sequence under the decidable ConfigDistinct, whose complement (two sources -> one archive name) was a genuine defect (duplicate member, two RECORD rows), repaired in /repo (a8f41e9: the builder refuses the second file); ASCII names; D11 local-version labels with '-' excluded (known finding).",
+        TB + "Partial: zip/deflate, sha256 (uninterpreted), csv dialect of CPython 3.12 and the file system are trusted; that the builder performs the modelled call sequence is sampled (logged in-process), not proved; each-member-once is an invariant of every wheel that is written (`written_wheel_each_once`, no condition on the configuration: the writers refuse a name already in the archive since repo fix a8f41e9, which the obligation ConfigDistinct exposed); the build succeeds iff its own targets are distinct (`build_succeeds_iff_distinct`; ConfigDistinct is a decidable sufficient condition), otherwise RuntimeError — compared with the real builder at the refusing call; ASCII names; D11 local-version labels with '-' excluded (known finding).",
         "DESIGN.md §4 C01",
     ),
     "C06": (
@@ -56,7 +56,7 @@ CLAIMED: dict[str, tuple[str, str, str, str]] = {
     "C11": (
         "Lean 4 theorems over the white-box conversion model (create_nested_marker, normalize_python_version_markers, get_python_constraint_from_marker) against the PEP 508 reference semantics and against poetry-core's own evaluation + structural differential correspondence + oracle on an interpreter grid",
         "Machine-checked for all X, Y, Z : Nat: the create_nested_marker text evaluated by the reference equals allows(X.Y.Z) for ranges, precision-3 versions, unions and the universal range (inclusive/exclusive x precision 1/2/3 x min/max incl. the .0 padding), and the same through poetry-core's own parse_marker + validate (`createNested_poetry`, no leaf-level hypothesis on the full domain; wildcard ranges X.*, X.Y.*, !=X.Y.* relative to the leaf specification); the listed operators land in the domain; normalize_python_version_markers is exact per (op, value) pair and for in/not in lists; the multi-clause constraint text splits soundly (`split_sound`); get_python_constraint_from_marker is exact for single items, an upper bound for every marker and exact on python-only markers (`pyConstraint_upper_validate`, `pyConstraint_exact_validate`, hypothesis-free on the full comparison-operator domain). A proof obligation that would not close (`hne`) exposed a real defect (fixed as 683cb61). Every run compares model vs code on texts and constraints and evaluates ranges/markers on every minor 2.6-4.1 x patch levels by poetry-core and by the reference, incl. the complete python_version pair universe.",
-        TB + "Partial outside the domain (~=, one-component literals: counterexample theorem). Known finding single-version-precision-lt-3 as counterexample theorem.",
+        TB + "Hypothesis-free on the domain with ~= leaves and python_version in/not in lists (any number of list clauses per conjunction: `pair_alternatives_own` is the statement the seeded change C11-3 breaks); `createNested_poetry` needs only the decidable `nestedDomain` (no one-component bound). Outside: single versions of precision < 3 (counterexample theorem), one-component bounds and dev-release bounds (relative to the leaf specification; 21 such ranges replayed without disagreement). Known finding single-version-precision-lt-3 as counterexample theorem.",
         "DESIGN.md §4 C11",
     ),
     "C13": (
@@ -68,7 +68,7 @@ CLAIMED: dict[str, tuple[str, str, str, str]] = {
     "C17": (
         "Lean 4 theorems by structural induction over only/exclude/reduce_by_python_constraint, composed with C07's simplifier soundness and C11's conversion exactness + structural differential correspondence + truth oracle",
         "Machine-checked, hypothesis-free on the full comparison-operator domain: `only_mentions` (the result mentions only the requested variables: the simplifier introduces no variable), `only_weakens_validate`, `exclude` on a conjunction of leaves is exactly the conjunction of the others, without_extras = exclude(\"extra\") (rfl), `reduce_exact_validate` (reduction by a Python range is exact incl. the MarkerUnion shortcut, for ranges whose bounds have two or three components). General forms relative to the leaf specification are kept as `_partial`. Every run compares model vs code on only/exclude/without_extras/reduce results and evaluates the three statements on the environment sample.",
-        TB + "Ranges with one-component bounds and markers outside the comparison-operator domain are covered by the general forms + correspondence.",
+        TB + "only / exclude / reduce are hypothesis-free on the domain FullLeafLs (comparison operators, ~=, python_version lists); ranges with one-component bounds and markers outside it are covered by the general forms + correspondence.",
         "DESIGN.md §4 C17",
     ),
     "C19": (
@@ -98,13 +98,13 @@ CLAIMED: dict[str, tuple[str, str, str, str]] = {
         "exactly of declared, range-derived and licence classifiers; and that the PEP 621 and legacy spellings configure equal Metadata. Header "
         "order, METADATA_BASE, tables and AUTHOR_REGEX are regenerated from source every run; the model is compared with real wheel METADATA "
         "and sdist PKG-INFO in both styles; Spec.Rfc822 is compared with email.parser on hostile messages.",
-        TB + "Partial: tomli, fastjsonschema, SPDX lookup, NFC normalisation, to_pep_508, canonicalize_name, format_python_constraint are inputs of the model; project_eq_legacy covers the commonly expressible fields and single printed python ranges (not unions / wildcard spellings); values compared modulo leading blanks (RFC 822 unfolding). Line-break validation was added to /repo (64d596d, extended by 11abac0 after the proof obligation exposed three unvalidated sources); two author-table findings are known. A call-history stream (same project, one free-text field re-cased, built back to back) looks for state kept between builds.",
+        TB + "Partial: tomli, fastjsonschema, SPDX lookup, NFC normalisation, to_pep_508, canonicalize_name, format_python_constraint are inputs of the model; what remains trusted is the list `Printers` (`validated_render_parse_printers`: no CR/LF in the output of to_pep_508, of str(constraint) in format_python_constraint's range branch, of the schema's uri format and of SPDX names; Version.to_string, the union branch of format_python_constraint and canonicalize_name are proved line-free); project_eq_legacy covers the commonly expressible fields, single printed ranges, every wildcard-spelt range and the evaluated union `~2.7 || ^3.6` (no general union theorem); `render_history_free` / `build_history_free` name the subject of the call-history stream; values compared modulo leading blanks (RFC 822 unfolding). Line-break validation was added to /repo (64d596d, extended by 11abac0 after the proof obligation exposed three unvalidated sources); two author-table findings are known. A call-history stream (same project, one free-text field re-cased, built back to back) looks for state kept between builds.",
         "DESIGN.md §4 C14",
     ),
     "C18": (
         "Lean 4 proof over executable models of __eq__/__hash__ (hash modelled by its input tree, xor commutative) + correspondence of the == matrix, hash-input classes, dumps and reachability flags on pools of spellings incl. derived objects with a hashing history + real-code oracle on all pairs and triples",
         "Machine-checked for all values: equality is an equivalence and equal values have equal hash inputs for versions, string constraints and markers; for version constraints with no guard on reachable values (parser, intersect and union are proved never to build a degenerate range); for specifications and dependencies (transitivity under exact references, hash coherence unconditional, derivation cannot change the hash input); interchangeability (same allows/validate) for versions, ranges, constraints of the regular setting incl. unions, string constraints and coherent markers; re-parse closure with C15's string-level round trip. Every run compares the model's == / hash-input classes with real == / hash() on pools with many spellings of one value, fresh and derived after hashing, and evaluates reflexivity, symmetry, transitivity, hash coherence, set membership, interchangeability and re-parse equality on the real objects.",
-        TB + "Partial: marker coherence (the constraint of a SingleMarker is the one its key denotes) is proved to be an invariant of parse_marker and of every operation of the marker algebra (intersect, union, cnf, dnf, of, simplify, invert, only, exclude, reduce) for every fuel and recursion stack, relative to two leaf-level constructor facts (parsed items; the SingleMarker(name, constraint) calls of _merge_single_markers) that are checked per object at run time and proved by C06 on its domain. Equal version constraints admit the same versions through allows for all non-unions, for unions in the regular setting and for `!=V` with any V; open: unions with local or same-release unequal bounds other than `!=V`. Two VCS-reference classes are known findings (by-design prefix matching); three defects fixed.",
+        TB + "Partial: marker coherence (the constraint of a SingleMarker is the one its key denotes) is proved to be an invariant of parse_marker and of every operation of the marker algebra (intersect, union, cnf, dnf, of, simplify, invert, only, exclude, reduce) for every fuel and recursion stack, relative to two leaf-level constructor facts (parsed items; the SingleMarker(name, constraint) calls of _merge_single_markers) that are checked per object at run time; on the domain FullQLP (string variables with ==, !=, reversed in/not in; extra; python_version and python_full_version with the seven operators and python_version lists) both facts are discharged: `marker_coherent_parse_domain`, `_algebra_domain`, `_projections_domain` hold hypothesis-free. Deriving with_features/without_features yields a hash input that is a function of the derived fields only (`derived_hash_input`: the seeded change C18-3). Equal version constraints admit the same versions through allows for all non-unions, for unions in the regular setting and for `!=V` with any V; open: unions with local or same-release unequal bounds other than `!=V`. Two VCS-reference classes are known findings (by-design prefix matching); three defects fixed.",
         "DESIGN.md §4 C18",
     ),
     "C02": (
@@ -135,7 +135,7 @@ CLAIMED: dict[str, tuple[str, str, str, str]] = {
     "C04": (
         "Lean 4 theorems: parsed constraint membership = formalised packaging specifier semantics, per operator and for sets + differential correspondence (model vs code, spec vs packaging)",
         "Machine-checked proof that membership in the model of the parsed constraint equals the formalised reference semantics (Spec/Specifier.lean, the range-based packaging 26 algorithm): per operator on candidates regular for the literal; every operator but != with final literals on EVERY candidate (incl. ~=, ==V.*), !=V.* on every candidate through the real union `allows`; the exclusive-comparison rules; sets of any length of single-range clauses with no regularity between literals (`>=1.2, ==1.2.*`), and sets with any operators in the regular setting; the documented ranges of ^, ~, bare versions and ||. Every run compares model vs real parse_constraint().allows() and spec vs packaging on ~230k pairs.",
-        TB + "Comma sets without != : membership = reference with no hypothesis beyond the property's guard (all literals final: every candidate incl. the literals' pre/post/dev/local siblings; otherwise candidate regular for each literal); the complement is exactly the class sibling-of-another-literal (witness proved and replayed). Open: sets containing != / !=V.* outside the regular setting. Reference = packaging 26.3 in a subprocess. Three in-guard divergence classes are known findings (by design of the range algebra).",
+        TB + "Comma sets without != : membership = reference with no hypothesis beyond the property's guard (all literals final: every candidate incl. the literals' pre/post/dev/local siblings; otherwise candidate regular for each literal); the complement is exactly the class sibling-of-another-literal (witness proved and replayed). Comma sets WITH != / !=V.*: member-by-member membership = reference on candidates regular for each literal with no regularity between the literals (side conditions on the set: no == clause, no local label, no >=V,<=V point; `neq_set_membership_eq_ref`, by a per-probe version of the union intersect walk). Open: sets mixing == with != outside the regular setting. Reference = packaging 26.3 in a subprocess. Three in-guard divergence classes are known findings (by design of the range algebra).",
         "DESIGN.md §4 C04",
     ),
     "C05": (
@@ -148,7 +148,7 @@ CLAIMED: dict[str, tuple[str, str, str, str]] = {
         "the real `allows` (`C05_regular_partial`), incl. the difference merge walks and `_inverted`. Outside that setting the union-level "
         "results stay `_partial` (full statements kept as `def …_full_statement`). The model mirrors the code branch by branch and "
         "is compared structurally (text, dump, flags, membership on regular AND irregular probes) on every run.",
-        TB + "list.sort modelled as stable insertion sort; one known finding (Version ∩ range with local lower bound) proved as a counterexample theorem. Beyond the regular setting: intersect of non-union operands is exact on ALL versions for half-open ranges (the shape of ^, ~, ~=, ==V.*, >=V,<W) and for members over final versions, and at every probe regular for exclusive-lower / inclusive-upper ends (counterexample for the complement); union-level operations are exact in the regular setting.",
+        TB + "list.sort modelled as stable insertion sort; one known finding (Version ∩ range with local lower bound) proved as a counterexample theorem. Beyond the regular setting: intersect of non-union operands is exact on ALL versions for half-open ranges (the shape of ^, ~, ~=, ==V.*, >=V,<W) and for members over final versions, and at every probe regular for exclusive-lower / inclusive-upper ends (counterexample for the complement); union-level operations are exact in the regular setting; beyond it VersionUnion.of and union ∩ are exact at every probe fine for the end shapes and on all versions for half-open members with unstable lower ends (every ==V.* disjunction); for stable adjacent ends the expectation is false: `^2 || ^3` merges to `>=2,<4` and admits 3.dev0 (counterexample_union_of_adjacent_gap = the listed class adjacent-union-gap).",
         "DESIGN.md §4 C05",
     ),
     "C09": (
@@ -169,7 +169,7 @@ CLAIMED: dict[str, tuple[str, str, str, str]] = {
         "that empty/universal constraints admit nothing/everything; the self laws are unconditional for every well-formed constraint; in the "
         "regular setting all answers (unions included) never raise, are sound against the real `allows`, and allows_any = non-empty "
         "intersection. The uninhabited-range case is a proved counterexample. Same correspondence stream as C05 with the predicates as columns.",
-        TB + "As C05. Beyond the regular setting: allows_all / allows_any between ranges are right on ALL versions for half-open ranges and at every probe regular for exclusive-lower / inclusive-upper ends; counterexample (>1.0).allows_all(>=1.0.post1) proved and replayed (irregular probe, outside the property's quantifier).",
+        TB + "As C05. Beyond the regular setting: allows_all / allows_any between ranges are right on ALL versions for half-open ranges and at every probe regular for exclusive-lower / inclusive-upper ends; counterexample (>1.0).allows_all(>=1.0.post1) proved and replayed (irregular probe, outside the property's quantifier); union allows_all / allows_any right at fine probes and on all versions for unions of half-open ranges; `dev0_overlaps_split_union` + `version_allows_higher_tiebreak` state what the seeded change C12-3 breaks.",
         "DESIGN.md §4 C12",
     ),
     "C15": (
@@ -182,7 +182,7 @@ CLAIMED: dict[str, tuple[str, str, str, str]] = {
         "membership-equivalent re-parse for `!=V` and `a || b || …` joins (regular setting). Partial: algebra-produced ranges that the printer "
         "happens to spell with a wildcard and wildcard members inside a `||` join are covered by the correspondence (every algebra result "
         "re-printed, re-parsed, probed); a raw spelling ending in a separator is a proved counterexample and a known finding.",
-        TB + "As C05; wildcard printing mirrored incl. the epoch fix; every range or two-member union the printer spells with a wildcard re-parses membership-equivalently on every version (lower end not a post-release).",
+        TB + "As C05; wildcard printing mirrored incl. the epoch fix; every range or two-member union the printer spells with a wildcard re-parses membership-equivalently on every version, post-release wildcards included (`every_wildcard_spelt_range_text_roundtrip`).",
         "DESIGN.md §4 C15",
     ),
     "C16": (
